@@ -12,10 +12,10 @@ from pyvc.runner import BoundedResult
 from .common import Vals, Stubs, real_env, runtime_error, events, z_tdiv, I, cls_name, date_abstractions
 
 MANIFEST_ENTRY = {
-    "category": "proof",
-    "text": "add/sub/mul/div/mod are executed symbolically for every ordered pair of operand kinds: NULL gives NULL, int op int is a ValueInt holding exactly the mathematical result (div truncating toward zero, mod with |r|<|b| and b | a-r) for all integers, mixed numerics give a decimal, zero divisors give the language error, nothing but CklRuntimeError escapes; and/or/not are proved to short-circuit left to right and to accept only booleans (event-trace postconditions with abstract children); the precedence chain, comparison chains and all `is [not]` predicate forms of the parser are proved on an abstract token stream",
-    "note": "decimal results: kind and zero/NULL behaviour only (IEEE values not specified); parser sub-expressions are abstract callees; composition to whole expression trees is structural induction on paper",
-    "technique": "deductive verification: pyvc VCs from the real AST + z3 (kind case split, exact integer specs, event traces)",
+    'category': 'proof',
+    'text': 'add/sub/mul/div/mod are executed symbolically for every ordered pair of operand kinds: NULL gives NULL, int op int is a ValueInt holding exactly the mathematical result (div truncating toward zero, mod with |r|<|b| and b | a-r) for all integers, mixed numerics give a decimal, zero divisors give the language error, nothing but CklRuntimeError escapes; and/or/not are proved to short-circuit left to right and to accept only booleans (event-trace postconditions with abstract children); the precedence chain, comparison chains and all `is [not]` predicate forms of the parser are proved on an abstract token stream; parser part: every level of the precedence chain (or < and < not < comparison < additive < multiplicative < unary) is verified on an abstract token stream with a ghost call log - operands come only from the next tighter level, the level stops exactly at the first token that is not its operator, one iteration folds left-associatively into the built-in the operator denotes, a comparison chain appends op(lhs, rhs) and continues from rhs; `x is not P` = not(`x is P`) by a relational unit that runs the real parse_pred_expr on a token stream and on the same stream without the `not` and compares the trees field by field',
+    'note': 'decimal results: kind and zero/NULL behaviour only (IEEE values not specified); parser sub-expressions are abstract callees (deterministic in the relational unit: same sub-parser on the same tokens gives the same node - an assumption about sub-parsers looking only forward, which their C01 cursor contracts support); composition to whole expression trees is structural induction on paper',
+    'technique': 'deductive verification: pyvc VCs from the real AST + z3 (kind case split, exact integer specs, event traces)',
 }
 PROPERTY = "C02"
 LEVEL = "proof"
